@@ -94,13 +94,16 @@ def make_results(grid, side, nobs=1, acc=False):
     kw = {"accumulate_values": True} if acc else {}
     for i in range(1, n + 1):
         obs = observations(side, i, nobs)
+        # (two choice results with different numbers of choices: each combined result has its own size)
         rs = [Result.create("s", Result.SUMTYPE, obs[0][0], **kw), Result.create("r", Result.RATIOTYPE, obs[0][0], 2 ** 21, **kw),
-              Result.create("m", Result.MISCTYPE, obs[0][0], **kw), Result.create("c", Result.CHOICETYPE, obs[0][1], NCH, **kw)]
+              Result.create("m", Result.MISCTYPE, obs[0][0], **kw), Result.create("c", Result.CHOICETYPE, obs[0][1], NCH, **kw),
+              Result.create("c5", Result.CHOICETYPE, obs[0][1] + 2, NCH + 2, **kw)]
         for v, ch in obs[1:]:
             rs[0].update(v)
             rs[1].update(v, 2 ** 21)
             rs[2].update(v)
             rs[3].update(ch)
+            rs[4].update(ch + 2)
         for r in rs:
             sr.append_result(r)
     return sr
@@ -152,7 +155,7 @@ def check_combined(u, exp, sides, nobs, acc, what):
     d = check_order(u.params, [e["combo"] for e in exp])
     if d:
         return f"{what}: combined parameters: " + d
-    for name in ("s", "r", "m", "c"):
+    for name in ("s", "r", "m", "c", "c5"):
         lst = u[name]
         if len(lst) != len(exp):
             return f"{what}: {len(lst)} combined results for {name}, expected {len(exp)}"
@@ -162,7 +165,8 @@ def check_combined(u, exp, sides, nobs, acc, what):
             obs = [o for side, key in enumerate(sides) if e[key] for o in observations(side, e[key], nobs)]
             n = len(obs)
             where = f"{what}: combination {e['combo']}: {name}"
-            want_v = [o[1] if name == "c" else o[0] for o in obs] if acc else []
+            nch, off = (NCH, 0) if name == "c" else (NCH + 2, 2)
+            want_v = [(o[1] + off if name == "c5" else o[1]) if name in ("c", "c5") else o[0] for o in obs] if acc else []
             if name == "m":
                 if n and dct["value"] != obs[-1][0]:
                     return f"{where} value {dct['value']}, expected the last merged observation {obs[-1][0]}"
@@ -173,8 +177,8 @@ def check_combined(u, exp, sides, nobs, acc, what):
                 return f"{where} num_updates {r.num_updates}, expected {n}"
             if [int(x) for x in dct["value_list"]] != want_v:
                 return f"{where} accumulated values {list(dct['value_list'])}, expected {want_v} (operands accumulate: {acc})"
-            if name == "c":
-                counts = [sum(1 for o in obs if o[1] == ch) for ch in range(NCH)]
+            if name in ("c", "c5"):
+                counts = [sum(1 for o in obs if o[1] + off == ch) for ch in range(nch)]
                 if [int(x) for x in dct["value"]] != counts or dct["total"] != n:
                     return f"{where} counts {list(dct['value'])} / total {dct['total']}, expected {counts} / {n}"
                 if n and [float(x) for x in r.get_result()] != [c / n for c in counts]:
